@@ -95,6 +95,9 @@ func (C08X) Gen(rt *rapid.T, tier string) any {
 	addHealthy(rt, p, enabled, map[string]bool{}, 4+pick(rt, 5, "n1"), 300_000)
 	// a second round may repeat extractors (several files of one extractor in different directories)
 	addHealthy(rt, p, enabled, map[string]bool{}, pick(rt, 4, "n2"), 300_000)
+	if chance(rt, 30, "dup") {
+		addDuplicate(rt, p, -1)
+	}
 	if rapid.Bool().Draw(rt, "osrelease") {
 		p.add(FileSpec{Path: "etc/os-release", Src: Src{Text: osRelease}})
 	}
